@@ -228,7 +228,24 @@ pub fn run_ccase(ctx: &mut Ctx, prop: &str, w: &World, steps: &[CStep]) {
         Kind::RefFull => run_generic(ctx, prop, w, RefStore::new(d_full_pub), steps),
         Kind::RefNonDisc => run_generic(ctx, prop, w, RefStore::new(d_non_pub), steps),
         Kind::RefForced => run_generic(ctx, prop, w, RefStore::new(d_forced_pub), steps),
-        _ => run_generic(ctx, prop, w, MemoryStore::new(), steps),
+        Kind::MapArcMutex => run_generic(ctx, prop, w, Arc::new(tokio::sync::Mutex::new(MemoryStore::new())), steps),
+        Kind::MapArcRwLock => run_generic(ctx, prop, w, Arc::new(tokio::sync::RwLock::new(MemoryStore::new())), steps),
+        Kind::MapMutex => run_generic(ctx, prop, w, tokio::sync::Mutex::new(MemoryStore::new()), steps),
+        Kind::MapRwLock => run_generic(ctx, prop, w, tokio::sync::RwLock::new(MemoryStore::new()), steps),
+        Kind::SlotArcMutex => run_generic(ctx, prop, w, Arc::new(tokio::sync::Mutex::new(None::<Passkey>)), steps),
+        Kind::SlotArcRwLock => run_generic(ctx, prop, w, Arc::new(tokio::sync::RwLock::new(None::<Passkey>)), steps),
+        Kind::SlotMutex => run_generic(ctx, prop, w, tokio::sync::Mutex::new(None::<Passkey>), steps),
+        Kind::SlotRwLock => run_generic(ctx, prop, w, tokio::sync::RwLock::new(None::<Passkey>), steps),
+        Kind::RefArcMutex => run_generic(ctx, prop, w, Arc::new(tokio::sync::Mutex::new(RefStore::new(d_full_pub))), steps),
+        Kind::RefArcRwLock => run_generic(ctx, prop, w, Arc::new(tokio::sync::RwLock::new(RefStore::new(d_full_pub))), steps),
+        Kind::RefMutex => run_generic(ctx, prop, w, tokio::sync::Mutex::new(RefStore::new(d_full_pub)), steps),
+        Kind::RefRwLock => run_generic(ctx, prop, w, tokio::sync::RwLock::new(RefStore::new(d_full_pub)), steps),
+        Kind::RefNonDiscArcMutex => run_generic(ctx, prop, w, Arc::new(tokio::sync::Mutex::new(RefStore::new(d_non_pub))), steps),
+        Kind::RefNonDiscArcRwLock => run_generic(ctx, prop, w, Arc::new(tokio::sync::RwLock::new(RefStore::new(d_non_pub))), steps),
+        Kind::RefNonDiscMutex => run_generic(ctx, prop, w, tokio::sync::Mutex::new(RefStore::new(d_non_pub)), steps),
+        Kind::RefNonDiscRwLock => run_generic(ctx, prop, w, tokio::sync::RwLock::new(RefStore::new(d_non_pub)), steps),
+        Kind::RefForcedArcMutex => run_generic(ctx, prop, w, Arc::new(tokio::sync::Mutex::new(RefStore::new(d_forced_pub))), steps),
+        Kind::RefForcedRwLock => run_generic(ctx, prop, w, tokio::sync::RwLock::new(RefStore::new(d_forced_pub)), steps),
     }
 }
 
